@@ -195,9 +195,18 @@ def run(ctx):
     allt = cat(traces, os.path.join(ctx.work, 'all.ndjson'))
     validate(ctx, 'EventTrace.tla', 'EventTrace.cfg', allt, WHAT, executions=execs,
              label='cover replay + random + stuck control')
+    # E5: free-running races (real futex, inert hooks): the windows BETWEEN two hook points of wait() ----------
+    race = os.path.join(ctx.work, 'race.ndjson')
+    rounds = 3000000 if thorough else 600000
+    tot, _ = ctx.driver(exe, ['--out', race, '--race', rounds, '--seed', ctx.seed], WHAT,
+                        label='free-running wait() vs notify()/count_down() races', allow_incomplete=True, timeout=1500)
+    validate(ctx, 'RaceObs.tla', 'RaceObs.cfg', race, WHAT, executions=tot.get('executions', 0),
+             label='free-running races: every waiter returns once the completing call returned')
+    ctx.cov['free_running_race_rounds'] = tot.get('executions', 0)
     ctx.sample_trace(tr_cover, 14)
     ctx.sample_trace(tr, 8)
     ctx.assumptions += [
+        'free-running rounds (E5): a waiter counts as lost if it has not returned 10 s (wall clock) after the completing call returned',
         'TLA+ interleaving semantics are sequentially consistent (weak-memory effects are C10)',
         'the futex is the model of harness/ctl: FUTEX_WAIT compares and blocks atomically, FUTEX_WAKE(INT_MAX) '
         'wakes every queued waiter, waits may return spuriously (R4)',
